@@ -179,7 +179,10 @@ CLAIMS.update({
     text="Theorems (Props/C14): a writer that is opened, fed any chunks and dropped can only ever aim at the temp area - "
          "whatever the calls answer - so every index and content path is unchanged in the healthy run, at every kill "
          "point and under every fault plan; drop removes the temp file; the index area is aimed at only by the index phase "
-         "of a commit that passed its checks (C08). Correspondence: writers dropped after 0..all chunks (sync/async, "
+         "of a commit that passed its checks (C08); TOTAL CORRECTNESS of a rejected commit (rejected_commit_changes_no_lookup): "
+         "from any healthy cache a keyed write with a wrong declared size - any flavour, chunking, options - answers exactly "
+         "the size-mismatch error, leaves the abstract index unchanged (every lookup of every key and every listing answer "
+         "as before), a healthy cache, and nothing of the writer in tmp. Correspondence: writers dropped after 0..all chunks (sync/async, "
          "mapped/plain), rejected commits, listing/lookup/temp area afterwards.",
     note=TB + "the async drop order / detached blocking task that removes the temp file is runtime behaviour: the harness "
          "polls until the temp file is gone (deadline 30 s).",
